@@ -220,7 +220,7 @@ def enum_op(tier):
             if tier == 'quick' and g['n'] == 4 and i % 4:
                 continue
             yield {'n': g['n'], 'edges': g['edges'], 'total': total, 'smart': smart, 'plant': plant, 'knuth': knuth,
-                   'cls': 'OPB' if i % 5 == 0 else 'CNF', 'as': ('networkx', 'cnfgen', 'cnfgen-grown', 'cnfgen', 'networkx-rev', 'cnfgen', 'cnfgen')[i % 7]}
+                   'cls': 'OPB' if i % 5 == 0 else 'CNF', 'as': gg.SIMPLE_ROT[i % len(gg.SIMPLE_ROT)]}
 
 
 @st.composite
@@ -275,7 +275,7 @@ def enum_peb(tier):
     nmax = 5 if tier == 'quick' else 6
     for i, g in enumerate(gg.all_dags(nmax, 0)):
         c = dict(g)
-        c['as'] = 'networkx' if i % 3 == 0 else 'cnfgen'
+        c['as'] = gg.DAG_ROT[i % len(gg.DAG_ROT)]
         yield {'graph': c, 'cls': 'OPB' if i % 2 else 'CNF'}
     for i, g in enumerate(gg.all_digraphs(3, 1)):
         if any(u >= v for u, v in g['edges']):
@@ -358,7 +358,7 @@ def enum_stone(tier):
                 continue
             i += 1
             c = dict(g)
-            c['as'] = 'networkx' if i % 4 == 0 else 'cnfgen'
+            c['as'] = gg.DAG_ROT[i % len(gg.DAG_ROT)]
             yield {'graph': c, 'stones': s, 'B': None, 'cls': 'OPB' if i % 3 == 0 else 'CNF'}
 
 
@@ -777,7 +777,7 @@ def strat_large(draw):
     if draw(st.booleans()):
         return {'family': fam, 'case': {'graph': g, 'stones': draw(st.integers(3, 7)), 'B': None, 'cls': 'CNF'}}
     R = draw(st.integers(3, 8))
-    b = draw(gg.bipartite_graphs(Lmin=g['n'], Lmax=g['n'], Rmin=R, Rmax=R, max_edges=4 * g['n'], kinds=('cnfgen', 'networkx')))
+    b = draw(gg.bipartite_graphs(Lmin=g['n'], Lmax=g['n'], Rmin=R, Rmax=R, max_edges=4 * g['n']))
     cntb, keepb = {}, []
     for u, j in b['edges']:
         if cntb.get(u, 0) < 4:
@@ -801,3 +801,10 @@ SUBCHECKS.append(_after.make(SUBCHECKS, inner=['op', 'op', 'op', 'peb', 'stone',
                              special=lambda case, out: ['edited-K_n-then-op'] if (case['sub'] == 'op' and 'complete' in (out.labels or []) and any(
                                  a[0] == 'complete' and a[2] != 'name' for a in case['prefix'])) else [],
                              required_labels=['edited-K_n-then-op', 'after:cli', 'after:dag', 'after:case', 'then:peb', 'then:op']))
+
+# ---------------------------------------------------------------------------
+# the same cases with the formula built by the command line tools
+
+from vlib import viacli as _viacli   # noqa: E402
+
+SUBCHECKS.append(_viacli.make(SUBCHECKS, inner=['op', 'peb', 'stone', 'cpls', 'ramsey', 'vdw', 'ptn'], required_labels=['built-by-tool', 'via:cnfgen', 'via:pbgen']))
